@@ -112,7 +112,19 @@ fn load_cases(path: &str, long: usize) -> Vec<Case> {
         let fw = if pool.rng.below(2) == 0 { Fw::Sval } else { Fw::Serde };
         let base = [1u64, 0, 1_700_000_000, 4_102_444_800, 10_413_792_000, 18_000_000_000][pool.rng.below(6) as usize];
         let nanos = [0u32, 1, 999_999_999, 123_456_789][pool.rng.below(4) as usize];
-        let dur = [Duration::ZERO, Duration::from_nanos(1), Duration::from_millis(1500), Duration::from_secs(86_400), Duration::from_nanos(7)][pool.rng.below(5) as usize];
+        let mut dur = [Duration::ZERO, Duration::from_nanos(1), Duration::from_millis(1500), Duration::from_secs(86_400), Duration::from_nanos(7)][pool.rng.below(5) as usize];
+        // the length class of a range, when the specification chose one
+        let pickd = |pool: &mut Pool, xs: &[Duration]| xs[pool.rng.below(xs.len() as u64) as usize];
+        match v["ev"]["dur"].as_str().unwrap_or("any") {
+            "any" => {}
+            "zero" => dur = Duration::ZERO,
+            "ns" => dur = pickd(&mut pool, &[Duration::from_nanos(1), Duration::from_nanos(999), Duration::from_nanos(1999)]),
+            "us" => dur = pickd(&mut pool, &[Duration::from_nanos(2000), Duration::from_nanos(5_500), Duration::from_micros(1999), Duration::from_nanos(1_999_999)]),
+            "ms" => dur = pickd(&mut pool, &[Duration::from_millis(2), Duration::from_micros(2_000_001), Duration::from_millis(1999), Duration::from_nanos(1_999_999_999)]),
+            "s" => dur = pickd(&mut pool, &[Duration::from_secs(2), Duration::from_millis(59_999), Duration::from_millis(119_999)]),
+            "min" => dur = pickd(&mut pool, &[Duration::from_secs(120), Duration::from_secs(3_599), Duration::from_secs(86_400 * 400)]),
+            o => tool_error(&format!("bad length class {o}")),
+        }
         let start = ts(base, nanos);
         let extent = match v["ev"]["extent"].as_str().unwrap() {
             "none" => None,
@@ -127,7 +139,13 @@ fn load_cases(path: &str, long: usize) -> Vec<Case> {
         };
         let carrier = v["ev"]["carrier"].as_str().unwrap_or("slice").to_string();
         let split = v["ev"]["split"].as_u64().map(|n| n as usize).unwrap_or(keys.len());
-        out.push(Case { salt, spec: v.clone(), keys, cvs, fw, mdl: format!("c13::e{salt}"), lit: format!("evt{salt} "), extent, carrier, split });
+        // the module path by shape (each event has its own module: outputs are attributed by it)
+        let mdl = match v["ev"]["mdl"].as_str().unwrap_or("two") {
+            "one" => format!("c13e{salt}"),
+            "three" => format!("c13::mid\u{e9}::e{salt}"),
+            _ => format!("c13::e{salt}"),
+        };
+        out.push(Case { salt, spec: v.clone(), keys, cvs, fw, mdl, lit: format!("evt{salt} "), extent, carrier, split });
     });
     }
     out
@@ -376,6 +394,9 @@ fn check_otlp(t: &Tables, c: &Case, enc: &str, msg: &str, rec: &NRecord, out: &m
             let num_ok = |cv: &CV, got: &NNum| -> bool {
                 match (cv, got) {
                     (CV::I64(i), NNum::Int(g)) => i == g,
+                    // a 128-bit typed value that fits: the integer it is (or the nearest double)
+                    (CV::I128(i), NNum::Int(g)) => *i == *g as i128,
+                    (CV::U128(i), NNum::Int(g)) => *g >= 0 && *i == *g as u128,
                     (CV::F64(f), NNum::Double(g)) => f.to_bits() == *g || (f.is_nan() && f64::from_bits(*g).is_nan()),
                     (CV::F64(f), NNum::DoubleAny) => enc == "json" && !f.is_finite(),
                     // an integer beyond i64: the nearest double (a data point cannot be text)
@@ -533,7 +554,8 @@ fn check_term(c: &Case, body: &str) -> Option<(String, String)> {
     let msg_at = text.find(&c.lit)?;
     let head = &text[..msg_at];
     // module: first and last segment
-    for seg in ["c13", &c.mdl["c13::".len()..]] {
+    let segs: Vec<&str> = c.mdl.split("::").collect();
+    for seg in [segs[0], segs[segs.len() - 1]] {
         if !head.contains(&format!("{seg} ")) {
             return Some(("module".into(), seg.to_string()));
         }
@@ -560,6 +582,27 @@ fn check_term(c: &Case, body: &str) -> Option<(String, String)> {
             let tid: String = id_bytes(&c.cvs[idx("trace") - 1]).iter().map(|b| format!("{b:02x}")).collect();
             if !head.contains(&tid[..6]) {
                 return Some(("trace_id".into(), tid[..6].to_string()));
+            }
+        }
+    }
+    // an extent with a length: a number and a unit that denote it (truncated to that unit)
+    if t["len"].as_bool() == Some(true) {
+        if let Some(len) = c.extent.as_ref().and_then(|e| e.len()) {
+            let nanos = len.as_nanos();
+            let shown = head.split_whitespace().any(|tok| {
+                for (unit, per) in [("ns", 1u128), ("\u{3bc}s", 1_000), ("us", 1_000), ("ms", 1_000_000), ("s", 1_000_000_000), ("m", 60_000_000_000), ("h", 3_600_000_000_000), ("d", 86_400_000_000_000)] {
+                    if let Some(n) = tok.strip_suffix(unit) {
+                        if let Ok(n) = n.parse::<u128>() {
+                            if n * per <= nanos && nanos < (n + 1) * per {
+                                return true;
+                            }
+                        }
+                    }
+                }
+                false
+            });
+            if !shown {
+                return Some(("extent length".into(), format!("{nanos}ns")));
             }
         }
     }
@@ -762,7 +805,7 @@ fn main() {
                         rest.find('"').map(|e| rest[..e].to_string())
                     });
                     match m {
-                        Some(m) if m.starts_with("c13::") => mangled.entry(m).or_default().push(line.to_string()),
+                        Some(m) if m.starts_with("c13") => mangled.entry(m).or_default().push(line.to_string()),
                         _ => bad_lines.push(line.to_string()),
                     }
                 }
@@ -855,7 +898,9 @@ fn main() {
             }
         }
         // (b) OTLP, both encodings, and the twins
-        let empty_metric_seq = c.spec["otlp"]["sink"] == "metrics" && matches!(&*c.cvs[c.spec["otlp"]["value"].as_u64().unwrap() as usize - 1].norm(), CV::Seq(v) if v.is_empty());
+        // a metric sample whose value is an empty sequence (or an empty map): which record it becomes is not decided
+        let empty_metric_seq = c.spec["ev"]["kind"] == "metric"
+            && c.keys.iter().position(|k| k == "metric_value").map(|i| match &*c.cvs[i].norm() { CV::Seq(v) => v.is_empty(), CV::Map(v) => v.is_empty(), _ => false }).unwrap_or(false);
         let mut pair: Vec<Option<&NRecord>> = vec![];
         for (enc, recs, pk) in [("proto", &proto_recs, "otlp-proto"), ("json", &json_recs, "otlp-json")] {
             if panicked(pk) {
